@@ -362,6 +362,42 @@ def check_c06(rep):
 # ---------------------------------------------------------------------------------------------
 # C03: every message frames and parses back identically
 
+def _has(x, needles):
+    if isinstance(x, str):
+        return x in needles
+    if isinstance(x, dict):
+        return any(_has(v, needles) for v in x.values())
+    if isinstance(x, (list, tuple)):
+        return any(_has(v, needles) for v in x)
+    return False
+
+
+def reference_readings(rep, proto, items):
+    """Reference readings (as message descriptions) of (type, payload) pairs; undecodable or
+    not-available ones are left out."""
+    out = []
+    for k in range(0, len(items), 3000):
+        chunk = items[k:k + 3000]
+        path = os.path.join(lib.SCRATCH, f"read_{os.getpid()}_{k}.json")
+        os.makedirs(lib.SCRATCH, exist_ok=True)
+        with open(path, "w") as f:
+            json.dump({"traces": [{"id": i, "proto": proto, "type": t, "payload": list(p)} for i, (t, p) in enumerate(chunk)]}, f, separators=(",", ":"))
+        try:
+            r = tlc.run("Check_Read", DEC_CFG, env={"TRACE_FILE": path}, workers=1, heap="4g", timeout=1800)
+        finally:
+            os.remove(path)
+        got = r.prints("READ")
+        if r.error or len(got) != len(chunk):
+            rep.machinery.append("Check_Read failed: " + r.out[-600:])
+            return out
+        rep.add_tlc({"states": r.distinct, "transitions": r.generated})
+        for v in got:
+            d = v[2]
+            if isinstance(d, dict) and not _has(d, ("NA", "Undecodable")):
+                out.append(d)
+    return out
+
+
 def check_c03(rep):
     from . import gen_socket as G
     from . import p_socket as PS
@@ -379,6 +415,10 @@ def check_c03(rep):
             rest = [x for x in sp if not (x[2].endswith("/edge") or x[2].endswith("/base") or "/count" in x[2])]
             sp = keep + rng.sample(rest, min(len(rest), 600))
         args += [{"decoded": {"type": t, "payload": p}} for t, p, tag in sp]
+        # the same payloads once more, as objects built from the REFERENCE reading (TLC, Check_Read): the
+        # round trip then does not depend on the decoder under test for its input
+        refs = reference_readings(rep, proto, [(t, p) for t, p, tag in sp])
+        args += [{"msg": d} for d in refs]
         rng.shuffle(args)
         for i in range(0, len(args), 12):
             b = G.Builder(proto, rng)
